@@ -5,7 +5,7 @@ after shadowing re-definitions with the other mutability and after a branch that
 shadowed; the mutable counterparts with a value of the right type are the
 accepting half.
 """
-from .. import ctxgen
+from .. import ctxgen, scopeseq
 from ..staticprop import evaluate_verdict
 
 ID = "C07"
@@ -99,6 +99,8 @@ def payloads(tier):
 def cases(tier, seed):
     depth = 1 if tier == "quick" else 2
     yield from ctxgen.cases_for(payloads(tier), depth, "c07")
+    # the scope machine: every statement sequence over {def, def fin, shadowing def, assign, typed uses, 7 block kinds} within a size bound
+    yield from scopeseq.cases("C07", tier)
 
 
 def evaluate(case, drv):
